@@ -236,6 +236,16 @@ def proof_obligations(rep, relpath, extra_oblig=None):
           'translators tr/schema.py, tr/lib.py, tr/code.py, tr/gen.py (regenerate coq/Gen/*.v from /repo on every run)']
     for n, a in res['assumptions'].items():
         tb.append('Print Assumptions %s: %s' % (n, ' '.join(a.split())))
+    if rep.tier == 'thorough':
+        mod = 'MX.' + relpath[:-2].replace('/', '.')
+        rc, out, err, dt = sh(['coqchk', '-silent', '-o', '-Q', '.', 'MX', mod], cwd=COQ, timeout=3600)
+        summ = (out + err)
+        i = summ.find('CONTEXT SUMMARY')
+        tb.append('coqchk -o %s (exit %d, %.0fs): %s' % (mod, rc, dt, ' '.join(summ[i:].split()) if i >= 0 else summ[-400:]))
+        rep.coverage['coqchk_exit'] = rc
+        if rc != 0:
+            res['ok'] = False
+            res['failing'] = 'coqchk'
     bad = forbidden_scan()
     if bad:
         tb.append('FORBIDDEN CONSTRUCTS FOUND: ' + '; '.join(bad))
